@@ -1,5 +1,6 @@
 #!/bin/bash
-# usage: [VSLOT=a] [VTHREADS=8] verify_mutant.sh <seeded-id> [--no-suite]
+# usage: [VSLOT=a] [VTHREADS=8] verify_mutant.sh <seeded-id> [--no-suite|--reuse-suite]
+# (never edit this file in place while a slot is running it: write a copy and mv it over)
 # Confirms in a scratch worktree of /repo (never /repo itself): the patch applies and compiles
 # (with and without verif-hooks), the demonstration passes without the patch and fails with it,
 # and the repository's existing test suite, unedited, passes with it.
@@ -33,7 +34,11 @@ cargo check --offline -q -j $T > $S/confirm_build.log 2>&1; b1=$?
 cargo check --offline -q -j $T --features verif-hooks >> $S/confirm_build.log 2>&1; b2=$?
 bash $S/demo_cmd.sh > $S/confirm_demo_with.log 2>&1; d1=$?
 suite="skipped"
-if [ "$2" != "--no-suite" ]; then
+if [ "$2" = "--reuse-suite" ] && [ -f $S/confirm_suite.log ] && grep -q "tests run" $S/confirm_suite.log; then gzip -f $S/confirm_suite.log; fi
+if [ "$2" = "--reuse-suite" ] && [ -f $S/confirm_suite.log.gz ]; then
+  # the suite already ran with this patch in this profile (log kept); only the rest is redone
+  suite=$(zcat $S/confirm_suite.log.gz | grep -E "^\s+Summary" | tail -1 | sed 's/^ *//')
+elif [ "$2" != "--no-suite" ]; then
   cargo nextest run --workspace --cargo-profile release --no-fail-fast --tool-config-file pb:/w/lib/nextest.toml --profile pb --test-threads $T --offline > $S/confirm_suite.log 2>&1
   suite=$(grep -E "^\s+Summary" $S/confirm_suite.log | tail -1 | sed 's/^ *//')
   grep -E "^\s+(FAIL|TIMEOUT|SIGABRT|SIGSEGV|SIGTERM)" $S/confirm_suite.log | sort -u > $S/confirm_suite_failures.log
